@@ -5,6 +5,7 @@ Import ListNotations.
 From RsddV Require Import Base.Bdd Base.Util Model.SddVtree Model.SddOps Proofs.SddBase.
 From RsddV Require Import Proofs.SddVtree Proofs.SddInv Proofs.SddLoops Proofs.SddNode Proofs.SddAnd Proofs.SddCond Proofs.SddProg.
 From RsddV Require Import Proofs.SddWf Proofs.SddWfOps Proofs.SddWfAnd.
+From RsddV Require Model.Compile.
 
 Section CondNf.
 Variable t : vtree.
@@ -130,4 +131,8 @@ Qed.
 Definition run_ok_w := run_ok t true cache fuel W W_sneg W_T W_F W_var and_ok_w condition_ok_w.
 Definition or_ok_w := or_ok t true cache fuel W W_sneg and_ok_w.
 Definition ite_ok_w := ite_ok t true cache fuel W W_sneg W_T W_F and_ok_w.
+Lemma compile_cnf_ok_w (f sorted : list (list lit)) : Permutation sorted f ->
+  Forall (Forall (fun l : lit => In (fst l) (vleaves t))) f ->
+  exists r, compile_cnf_m t true cache fuel f sorted = Ok r /\ W r /\ forall a, sden r a = Compile.cnf_eval f a.
+Proof. apply (compile_cnf_ok t true cache fuel W); auto using W_sneg, W_T, W_F, W_var, and_ok_w. Qed.
 End ProgWf.
